@@ -6,7 +6,7 @@
 //
 // Build:  g++ -std=c++20 -O0 -I/repo/include … -DPART=<0..3> optim.cpp
 //   PART 0          C10: sampled (J, d, r, Delta, lambda) -> `opt_tr` lines
-//   PART 1, 2, 3    C09: generated problem families -> per run one `RUN {json}` line, one
+//   PART 1 … 8      C09: generated problem families -> per run one `RUN {json}` line, one
 //                   `opt_replay` line (per-iteration observables for the Lean state machine) and
 //                   a few `opt_tr` lines with the (J, d, r, Delta) of actual solver calls.
 // Run:    ./optim gen <count>                 VERIF_SEED from the environment
@@ -567,6 +567,8 @@ static std::string jvec(const VectorXd & v)
   return jarr(std::vector<double>(v.data(), v.data() + v.size()));
 }
 
+static int g_fam = 0;  // family number inside this PART (for `run <family> <index>` replays)
+
 template<class P>
 void emit_run(
   FILE * out, const std::string & family, int index, int mode, const RunCfg & cfg, P & prob, const std::vector<RunOut> & outs,
@@ -576,7 +578,7 @@ void emit_run(
   for (size_t c = 0; c < outs.size(); ++c) {
     const RunOut & ro = outs[c];
     std::ostringstream o;
-    o << "RUN {\"family\":\"" << family << "\",\"index\":" << index << ",\"seed\":" << seed_from_env() << ",\"call\":" << c
+    o << "RUN {\"part\":" << PART << ",\"fam\":" << g_fam << ",\"family\":\"" << family << "\",\"index\":" << index << ",\"seed\":" << seed_from_env() << ",\"call\":" << c
       << ",\"calls\":" << outs.size() << ",\"mode\":\"" << MODE_NAME[mode] << "\",\"strat\":\""
       << (cfg.strat == 0 ? "ceres" : "disney") << "\",\"ftol\":\"" << hexd(cfg.ftol) << "\",\"ptol\":\"" << hexd(cfg.ptol)
       << "\",\"max_iter\":" << cfg.max_iter << ",\"status\":" << ro.status << ",\"iter\":" << ro.iter
